@@ -162,8 +162,8 @@ struct serde<std::string> {
         is.read((char*)&length, sizeof(length));
         if (!is.good()) { break; }
         std::string str;
-        str.reserve(length);
-        for (uint32_t j = 0; j < length; j++) {
+        // the length comes from the stream and is not trusted: no up-front reservation, stop at the end of the stream
+        for (uint32_t j = 0; j < length && is.good(); j++) {
           str.push_back(static_cast<char>(is.get()));
         }
         if (!is.good()) { break; }
